@@ -273,6 +273,27 @@ def check_script(ctx, case):
                  kf=kf_for())
 
 
+def check_script_build(ctx, case):
+    """A Script built from a command list (opcodes as ints, data items as bytes - also the empty item) serialises to
+    the protocol encoding of exactly those items. case: kind=script_build, items"""
+    from ref import wire
+    _, scr = _lib()
+    items = _decode_items(case)
+    want = wire.script_build(items)
+    try:
+        s = scr.Script(list(items))
+        got = bytes(s.serialize())
+        got2 = bytes(s.as_bytes())
+    except Exception as e:
+        raise Discrepancy('script_build.raises', 'Script(%r...).serialize() raised %r' % (items[:4], e), case)
+    if got != want or got2 != want:
+        raise Discrepancy('script_build.bytes', 'Script(commands).serialize() = %s / as_bytes() = %s, protocol encoding '
+                          'of the %d items is %s' % (got.hex()[:120], got2.hex()[:120], len(items), want.hex()[:120]),
+                          case)
+    if list(wire.script_iter(got)) != list(wire.script_iter(want)):
+        raise Discrepancy('script_build.items', 'serialised script holds other items than it was built from', case)
+
+
 def script_strategy(ctx):
     from hypothesis import strategies as st
     max_items = ctx.scale(12, 40)
@@ -328,7 +349,7 @@ def prop_script(ctx):
 
 
 DISPATCH = {'compact': check_compact, 'varstr': check_varstr, 'num': check_num, 'numdec': check_num_decode,
-            'push': check_push, 'script': check_script}
+            'push': check_push, 'script': check_script, 'script_build': check_script_build}
 
 
 def replay(ctx, case):
@@ -480,6 +501,21 @@ def run(ctx):
 
     # 5. scripts ----------------------------------------------------------------------------------
     ctx.run_given('script', script_strategy(ctx), prop_script(ctx), ctx.scale(1200, 50000))
+
+    # 5b. scripts built from command lists (incl. the empty data item, boundary lengths)
+    from hypothesis import strategies as hst
+    lens = hst.one_of(hst.sampled_from([0, 0, 1, 75, 76, 77, 252, 253, 254, 255, 256, 520]), hst.integers(0, 80))
+    bitem = hst.one_of(hst.sampled_from(NONPUSH_OPS), hst.sampled_from(NONPUSH_OPS),
+                       lens.flatmap(lambda n: hst.binary(min_size=n, max_size=n)).map(lambda b: b.hex()))
+    sbuild = hst.fixed_dictionaries({'kind': hst.just('script_build'),
+                                     'items': hst.lists(bitem, min_size=1, max_size=ctx.scale(8, 20))})
+
+    def p_build(case):
+        if any(i == '' for i in case['items']):
+            ctx.klass('script_build.empty_item')
+        ctx.nt(('script_build', str(case['items'])))
+        check_script_build(ctx, case)
+    ctx.run_given('script_build', sbuild, p_build, ctx.scale(300, 8000))
     if ctx.thorough():
         from vlib import fuzz
         fuzz.run_fuzz(ctx, 'script', runs=300000, max_len=400)
